@@ -61,6 +61,9 @@ DeclSpace ==
     \cup {DeclC("TryFrom", ty, san, "none", <<>>, dflt) : san \in SanSeqs, dflt \in Defaults(ty)}
     \cup {Decl(ty, san, "custom", val, dflt) : san \in SanSeqs, val \in CustomVals, dflt \in Defaults(ty)}
   : ty \in {"Vec<i32>", "Vec<T>", "Cow<[i32]>"}}
+  \* ... and a byte vector (serde has a dedicated `bytes` data model type that a transparent newtype must not switch to)
+  \cup {Decl("Vec<u8>", san, "none", <<>>, dflt) : san \in {<<>>, <<San("sort")>>}, dflt \in Defaults("Vec<u8>")}
+  \cup {Decl("Vec<u8>", <<>>, "std", val, dflt) : val \in {<<P("non_empty")>>}, dflt \in Defaults("Vec<u8>")}
 
 MCDeclSeq == SetToSeq(DeclSpace)
 
